@@ -30,7 +30,9 @@ void p1_write(void) {
     VASSERT(pos == buf + IN.off + n, "P1 position advanced by exactly the length of the string");
     for (unsigned i = 0; i < P1_BUF; ++i) {
         char want = (i >= IN.off && i < IN.off + n) ? IN.src[i - IN.off] : IN.buf[i];
-        VASSERT(buf[i] == want, "P1 exactly the string's bytes are written, no terminator, nothing else");
+        /* (whether a terminator is left at the new position is the caller's business) */
+        if (i == IN.off + n) VASSERT(buf[i] == want || buf[i] == '\0', "P1 at most a terminator is written at the new position");
+        else VASSERT(buf[i] == want, "P1 exactly the string's bytes are written, nothing else");
     }
     VEND();
 }
@@ -74,7 +76,8 @@ void p3_lazy(void) {
         }
     }
     if (nonascii) {
-        VASSERT(L_nfkd_calls == 1 && L_nfkd_in == IN.str && L_nfkd_out == norm, "P3 non-ASCII input goes to the injected NFKD, once, with the caller's pointers");
+        VASSERT(L_nfkd_calls == 1 && L_nfkd_out == norm, "P3 non-ASCII input goes to the injected NFKD, once, writing into the caller's buffer");
+        for (int i = 0; i < DEP_IN_COPY && i <= P3_LEN; ++i) VASSERT(L_nfkd_in_copy[i] == IN.str[i] || (i > 0 && L_nfkd_in_copy[i - 1] == '\0'), "P3 the injected NFKD receives the caller's string");
         size_t e = 0; while (IN.dep.norm_out[e] != '\0') e++;
         VASSERT(r == e, "P3 the normaliser's result is returned unchanged");
     } else {
